@@ -35,6 +35,18 @@ __wrap_fopen(const char *path, const char *mode) {
 	return __real_fopen(path, mode);
 }
 
+#include <dirent.h>
+static int baseFds = -1;
+static int
+countOpenFds(void) {
+	int n = 0;
+	DIR *d = opendir("/proc/self/fd");
+	if (!d) return -1;
+	while (readdir(d)) n++;
+	closedir(d);
+	return n;
+}
+
 static int
 cmpOpen(const void *a, const void *b) {
 	return strcmp(*(char *const *)a, *(char *const *)b);
@@ -62,7 +74,9 @@ doCacheOp(char **tok, int ntok) {
 		nptrs = 0;
 		memset(ptrs, 0, sizeof(ptrs));
 		arenaLastTable = NULL;
-		printf("OK\n");
+		/* streams the library opened and never closed: a FILE stays reachable through libc's list of streams, so
+		 * LeakSanitizer does not see it; the descriptor table does */
+		printf("OK fdleak=%d\n", countOpenFds() - baseFds);
 		return 1;
 	}
 	return 0;
